@@ -190,7 +190,7 @@ def scenarios(pid, tier, seed):
     if tier == "thorough":
         for sc in dyn_gen.exhaustive_small(rng, budget=12000 if pid == "C06" else 60000):
             out.append(("exhaustive", sc))
-    if pid in ("C01", "C02", "C03", "C07", "C12", "C14"):
+    if pid in ("C01", "C02", "C03", "C04", "C07", "C08", "C10", "C12", "C14"):
         # the same scheduler object run twice (co_run resets its tasks): the second run is judged
         for sc in dyn_gen.targeted(pid, rng, n_t // 6) + [dyn_gen.gen_tree(rng, depth=rng.choice([1, 2])) for _ in range(n_r // 8)]:
             sc = copy.deepcopy(sc)
@@ -200,12 +200,24 @@ def scenarios(pid, tier, seed):
             if dyn_mon.admissible(sc):
                 sc["rerun"] = True
                 out.append(("rerun", sc))
+                if rng.random() < 0.6:
+                    # ... and the objects are edited between the two runs (the first run must be able to finish too)
+                    sc2 = dyn_gen.add_between(sc, rng)
+                    if dyn_mon.admissible({"tree": dyn_gen.first_run_tree(sc2)}):
+                        out.append(("rerun-edited", sc2))
     if pid in ("C01", "C02", "C03", "C12"):
         # graphs inspected (exit_jobs, list, dot_format, closures, check_cycles), then edited, then run
         for sc in dyn_gen.targeted(pid, rng, n_t // 6) + [dyn_gen.gen_tree(rng, depth=rng.choice([1, 2])) for _ in range(n_r // 8)]:
             sc = dyn_gen.add_late(sc, rng)
             if sc is not None:
                 out.append(("late-edits", sc))
+    if pid in ("C11", "C13"):
+        # the top-level run cancelled from outside at some instant (wait_for, task.cancel)
+        for sc in dyn_gen.targeted(pid, rng, n_t // 6) + [dyn_gen.gen_tree(rng, depth=rng.choice([1, 2, 2])) for _ in range(n_r // 8)]:
+            sc = copy.deepcopy(sc)
+            sc["cancel_top"] = rng.choice([0, 1, 1, 2, 3, 4])
+            sc["tree"]["pure"] = rng.random() < 0.5
+            out.append(("cancel-top", sc))
     for i in range(n_r):
         adm = rng.random() < 0.85
         out.append(("random", dyn_gen.gen_tree(rng, depth=rng.choice([1, 2, 2, 3]), admissible=adm or pid == "C03")))
